@@ -29,7 +29,6 @@ RULES = {
     "C14-T1": "initial divisor per radix is the largest power representable; other radixes normalised to 10 before use; digit alphabet 0-9A-F",
     "C14-U2": "'-' only under sign && (signed)val < 0 && base == 10; magnitude by unsigned negation",
     "C14-W": "wrappers: Int*ToStr -> (10, signed), UInt*ToStrBase -> (base, unsigned)",
-    "C14-S": "the 32-bit and 64-bit formatters have the same shape (sibling agreement)",
 }
 
 FORMATTERS = (("UInt32ToStrBaseSign", 32), ("UInt64ToStrBaseSign", 64))
@@ -141,55 +140,47 @@ def rule_t1_u2(ck, prog):
         f = prog.fn(name)
         if f is None:
             continue
-        # divisor variable: assigned constants under switch(base)
-        sw = [b for b in f.blocks.values() if b.term_kind == "SwitchStmt"]
-        st = K.site(f, "divisor-table", 0)
-        if len(sw) != 1 or sw[0].cond is None or sw[0].cond.strip_all_casts().get("path") != f.params[3]["name"]:
-            ck.violated("C14-T1", st, K.loc(f), "no switch over the radix parameter")
-            continue
+        # divisor variable = the local that is stepped down by `/= base`; its first value per radix is read off the
+        # paths of the function specialised to that radix (independent of switch / if-chain shape)
         base = f.params[3]["name"]
-        table = {}
-        norm = {}
-        for si, s in enumerate(sw[0].succs):
-            if s is None:
-                continue
-            lab = f.edge_label(sw[0], si)
-            key = lab[1] if lab[0] == "case" else "default"
-            # follow fallthrough until break: collect stores
-            b = s
-            seen = 0
-            xs, bs = None, None
-            while b is not None and seen < 6:
-                seen += 1
-                for e in b.elems:
-                    t = C.store_target(e)
-                    if t is not None and e.get("op") == "=":
-                        c = C.const_of(e.child(1))
-                        if t.get("path") == base:
-                            bs = c
-                        elif t.k == "DeclRefExpr" and c is not None:
-                            xs = (t["decl"]["name"], c)
-                if b.term_kind == "BreakStmt" or len([x for x in b.succs if x]) != 1:
-                    break
-                b = [x for x in b.succs if x][0]
-            table[key] = xs
-            norm[key] = bs
+        st = K.site(f, "divisor-table", 0)
+        divs = [t.get("path") for n, t in C.stores(f) if n.get("op") == "/=" and n.child(1).strip_all_casts().get("path") == base]
+        if not divs:
+            ck.violated("C14-T1", st, K.loc(f), "no divisor that is stepped down by the radix")
+            continue
+        xname = divs[0]
+        table, norm = {}, {}
+        for radix in (2, 8, 10, 16, 7):
+            firsts, bases = set(), set()
+            for ps in P.summarize(f, max_visits=1, params={base: radix, f.params[0]["name"]: 5}):
+                fx, lastb = None, None
+                for ev in ps.events:
+                    if ev[0] == "store":
+                        t = C.store_target(ev[1])
+                        if t.get("path") == xname and fx is None and ev[1].get("op") == "=":
+                            fx = C.const_of(ev[1].child(1))
+                        if t.get("path") == base and ev[1].get("op") == "=":
+                            lastb = C.const_of(ev[1].child(1))
+                if fx is not None:
+                    firsts.add(fx)
+                    bases.add(lastb if lastb is not None else radix)
+            table[radix] = firsts
+            norm[radix] = bases
         probs = []
         mask = (1 << bits) - 1
         for radix in (2, 8, 10, 16):
-            got = table.get(radix)
             want = largest_power(radix, bits)
-            if not got or (got[1] & mask) != want:
-                probs.append("radix %d starts with divisor %s, the largest power below 2^%d is %d" % (radix, got[1] & mask if got else None, bits, want))
-        d = table.get("default")
-        if not d or (d[1] & mask) != largest_power(10, bits) or norm.get("default") != 10:
-            probs.append("an unsupported radix is not normalised to 10 (divisor %s, base := %s)" % (d, norm.get("default")))
+            got = {x & mask for x in table.get(radix, set()) if x is not None}
+            if got != {want}:
+                probs.append("radix %d starts with divisor %s, the largest power below 2^%d is %d" % (radix, sorted(got), bits, want))
+        got7 = {x & mask for x in table.get(7, set()) if x is not None}
+        if got7 != {largest_power(10, bits)} or norm.get(7) != {10}:
+            probs.append("an unsupported radix is not normalised to 10 before the division (divisor %s, radix used %s)" % (sorted(got7), sorted(norm.get(7, []))))
         if probs:
-            ck.violated("C14-T1", st, K.loc(f, sw[0].cond), "; ".join(probs))
+            ck.violated("C14-T1", st, K.loc(f), "; ".join(probs))
         else:
-            ck.holds("C14-T1", st, K.loc(f, sw[0].cond), "2/8/10/16 -> %s; default -> 10" % [largest_power(r, bits) for r in (2, 8, 10, 16)])
+            ck.holds("C14-T1", st, K.loc(f), "2/8/10/16 -> %s; any other radix -> 10" % [largest_power(r, bits) for r in (2, 8, 10, 16)])
         # divisor only divided by the (normalised) base afterwards
-        xname = (table.get(10) or ("x", 0))[0]
         st = K.site(f, "divisor-steps", 0)
         steps = [n for n, t in C.stores(f) if t.get("path") == xname and n.get("op") not in ("=",)]
         init0 = True
@@ -301,7 +292,6 @@ def run(ck, fb, tier):
         rule_b2(ck, prog)
         rule_t1_u2(ck, prog)
         rule_w(ck, prog)
-        rule_s(ck, prog)
     ck.trust("spec/bounds.json capacity contracts ((str, len) pairs)")
 
 
